@@ -63,6 +63,10 @@ var spamVariants = []struct {
 	{"status-yes-folded", "X-Spam-Status: YES,\r\n score=12.1 required=5\r\n", "~", "YES, score=12.1 required=5"},
 	{"status-no", "X-Spam-Status: No, score=0.1\r\n", "~", "No, score=0.1"},
 	{"both-first-wins", "X-Rspamd-Action: no action\r\nX-Rspamd-Action: reject\r\n", "no action", "~"},
+	// filtered on two hops: the field occurs twice with the same verdict
+	{"rspamd-reject-twice", "X-Rspamd-Action: reject\r\nX-Rspamd-Action: reject\r\n", "reject", "~"},
+	{"rspamd-add-header-twice-apart", "X-Rspamd-Action: add header\r\nX-Other: x\r\nX-Rspamd-Action: add header\r\n", "add header", "~"},
+	{"status-yes-twice", "X-Spam-Status: Yes, score=8\r\nX-Spam-Status: Yes, score=9\r\n", "~", "Yes, score=8"},
 	// either header alone decides: a harmless action does not overrule a positive status, nor the other way round
 	{"no-action-but-status-yes", "X-Rspamd-Action: no action\r\nX-Spam-Status: Yes, score=9.0\r\n", "no action", "Yes, score=9.0"},
 	{"greylist-but-status-yes", "X-Spam-Status: yes\r\nX-Rspamd-Action: greylist\r\n", "greylist", "yes"},
